@@ -240,6 +240,14 @@ func (m *C13) OnBlock(e *Env, blk *world.BlockRecord) {
 					CurSid: evs[0].U64(bandtsstypes.AttributeKeyCurrentGroupSigningID), IncSid: evs[0].U64(bandtsstypes.AttributeKeyIncomingGroupSigningID)}
 				if ps.CurSid != 0 {
 					m.bySid[ps.CurSid] = ps
+					// atomic with the service: the fee is taken only for a signing that has actually been put to a committee. A request
+					// for which no committee could be drawn (too few members active with a nonce) is rejected with no transfer.
+					if sh == nil {
+						// no signing model in this profile
+					} else if sg := sh.Signings[ps.CurSid]; (sg == nil || len(sg.Attempts) == 0) && !cost.IsZero() {
+						e.Fail("C13", "fee_taken_for_unserved_request", "", "signature request by %s accepted and charged %s, but its signing %d was never assigned to a committee", meta.Msg.Sender, cost, ps.CurSid)
+						return
+					}
 				}
 				m.nSigPaid++
 				e.St.Trace("sigreq-paid:" + meta.Kind)
